@@ -72,6 +72,15 @@ CHECKS.update({
                 ref='3 C10', note=MT_NOTE + ' Senders serialise per signal number; eventfd back-ends only.'),
 })
 
+CHECKS.update({
+    'C11': dict(cat='exploration', tech='ground truth = every (pid, status) the library\'s wait4 returned and every kill() it issued (shim); per-pid sequence oracle at detected quiescence; scripted children as external actors',
+                text='Populations of children with and without interests, in 1-3 threads, made to stop / continue / exit / die at scripted moments (also twice in a row and at once after being spawned); the statuses delivered to each interest must equal the statuses reaped for its pid, in order, up to the terminating one and in the registering thread; strangers must be reaped harmlessly; the kill helper must refuse once the death was reaped and never call kill() then; no zombie may remain.',
+                ref='3 C11', note=MT_NOTE + ' Children count as external actors until the status change they were told to make has been reaped.'),
+    'C19': dict(cat='exploration', tech='wrapped fork/kill/wait4 with virtual time-stamps + child side channel (stdio report, SIGTERM acknowledgements); signal-schedule, data-integrity, no-kill-after-reap and no-zombie oracles',
+                text='Popen requests of both types with children of every behaviour and every close timing under virtual time: the wiring of the child\'s standard streams, the bytes in both directions, the sequence SIGTERM x5 then SIGKILL every 5 virtual seconds from the close, the absence of any signal after the termination was reaped, the reaping itself, the return of iv_main and the descriptor count are checked.',
+                ref='3 C19', note=MT_NOTE + ' The child program is the harness executable in --popen-child mode.'),
+})
+
 NOT_YET = {
 }
 
